@@ -50,7 +50,19 @@ func (c *Closure) Run(deadline int64) *ClosureResult {
 	}
 	seen := map[string]bool{}
 	sigSeen := map[string]bool{}
-	visit := func(path []int) (string, bool) {
+	visit := func(path []int) (key string, fresh bool) {
+		// a panic of the code under test is a verdict (no-panic clause), not a crash of the checker
+		defer func() {
+			if r := recover(); r != nil {
+				res.NViol++
+				k := "no-panic\x00panic"
+				if !sigSeen[k] {
+					sigSeen[k] = true
+					res.Viol = append(res.Viol, Violation{Harness: c.Name, Params: c.pathString(path), Clause: "no-panic", Sig: "panic:" + normPanic(fmt.Sprint(r)), Msg: fmt.Sprintf("panic: %v\noperations: %s", r, c.pathString(path))})
+				}
+				key, fresh = "", false
+			}
+		}()
 		sys := c.Build(path)
 		for _, f := range c.Check(sys, path) {
 			res.NViol++
